@@ -30,6 +30,7 @@ type Contract struct {
 	NoMapDeletes []string // struct field names holding maps from which the function must never delete an entry
 	AfterLoops []*AfterLoop // calls that may only happen after a loop has run to its end
 	Confines  []*Confine // parameters whose contents the function reads only through the listed callees
+	Accepts   []*Clause // conditions on the entry state under which the function does not raise: no panic instruction and no call of a function that never returns is reachable (faults of the Go run time are the safety obligations)
 	OnSlices  []*OnStore // assertions at every slice expression p[lo:hi] of the named parameter ($lo, $hi)
 }
 
